@@ -13,7 +13,7 @@ from mc.run import Stats, explore
 
 ASSUME = [
     "project 2025-01-06 +4w, default calendar, UTC, 1 h resolution (thorough adds 30 min); efforts 90/150/60/40 min so that predecessors end mid-slot",
-    "gap durations are calendar time (min, h, d = 24 h, w = 7 d)",
+    "gap durations are calendar time (min, h, d = 24 h, w = 7 d, m = 30 d, y = 365 d - the units table of the implementation)",
     "ALAP projects: deadlines (`end`) only on tasks without successors; on-start edges are not generated in ALAP (not claimed)",
     "a task with an own `start` (forward) / own `end` (backward) is not judged; a date inherited from a container is not a pin of its own",
     "only scheduled tasks are judged (unscheduled ones are C11's business)",
@@ -147,9 +147,44 @@ def universe(tier):
                                 if pin == "cend" and mode == "asap":
                                     continue
                                 yield {"sk": sk, "edges": edges, "kg": kg, "sp": spelling, "pin": pin, "shared": shared, "mode": mode}
+    yield from longgaps(tier)
+
+
+LONG_GAPS = ["1m", "2m", "1.5m", "1y", "5w", "45d", "1000h", "0.5y"]
+
+
+def longgaps(tier):
+    """gaps in every unit of the language (months and years need windows of many months)"""
+    for gap in LONG_GAPS:
+        for onstart in (False, True):
+            for mode in ("asap", "alap"):
+                if onstart and mode == "alap":
+                    continue
+                for via in ("leaf", "container", "inherited"):
+                    yield {"kind": "longgap", "gap": gap, "onstart": onstart, "mode": mode, "via": via}
+
+
+def longgap_spec(it):
+    d = {"ref": "a", "gap": it["gap"]}
+    if it["onstart"]:
+        d["onstart"] = True
+    a = {"id": "a", "effort": 600, "alloc": ["r1"]}
+    b = {"id": "b", "effort": 300, "alloc": ["r2"]}
+    if it["via"] == "leaf":
+        b["deps"] = [d]
+        tasks = [a, b]
+    elif it["via"] == "container":
+        d["ref"] = "g"
+        b["deps"] = [d]
+        tasks = [{"id": "g", "children": [a, {"id": "a2", "effort": 120, "alloc": ["r3"]}]}, b]
+    else:
+        tasks = [a, {"id": "h", "deps": [d], "children": [b, {"id": "b2", "effort": 120, "alloc": ["r3"]}]}]
+    return {"dur": "26m", "alap": it["mode"] != "asap", "resources": [{"id": "r1"}, {"id": "r2"}, {"id": "r3"}], "tasks": tasks}
 
 
 def to_spec(it):
+    if it.get("kind") == "longgap":
+        return longgap_spec(it)
     return build(it["sk"], [tuple(e) for e in it["edges"]], tuple(it["kg"]), it["sp"], it["pin"], it["shared"], it["mode"])
 
 
